@@ -4,6 +4,7 @@ import RactorModel.Lemmas.Listener
 import RactorModel.Lemmas.Mux
 import RactorModel.Lemmas.RacingScan
 import RactorModel.Lemmas.RemoteComplete
+import RactorModel.Lemmas.Advert
 import RactorModel.Extracted
 
 /-!
@@ -741,6 +742,43 @@ theorem listener_oracle_model (evs : List Listener.Ev) :
   simp [e1, e2]
 
 
+/-- (every exit is announced exactly once, whatever traffic is in flight) `Advert`: actors start,
+stop (leave the pid registry; their `Terminate` event is queued at the session), the session
+handles the queued events, and inbound `Cast` / `Call` frames for ANY pid are handled at ANY point
+in between — in particular after an actor left the registry and before its event is handled, where
+`authorized_local_actor` prunes the allow-list. Once every queued event is handled, every actor
+that is no longer alive was announced to the peer with exactly one control `Terminate`
+(so its remote reference stops: `Mirror`), and no live actor was. -/
+theorem every_exit_is_announced_exactly_once (ops : List Advert.Op) (i : Nat) :
+    let s := Advert.run {} ops
+    s.pend = [] → i < s.next →
+      (Advert.terms s.wire).count i = if i ∈ s.alive then 0 else 1 := by
+  intro s hp hi
+  have hinv := Advert.inv_run ops {} Advert.inv_init
+  have ht : Advert.terms s.wire = s.done := Advert.terms_run ops {} rfl
+  rw [ht]
+  split
+  · rename_i ha
+    exact List.count_eq_zero.mpr (hinv.ad i ha)
+  · rename_i ha
+    rcases hinv.all i hi with h | h | h
+    · exact absurd h ha
+    · rw [hp] at h; cases h
+    · exact List.count_eq_one_of_mem' hinv.d_nd h
+
+/-- (the traffic does not matter) what the session tells its peer, and which actors are alive,
+waiting, done, is the same as in the run with every inbound frame removed. -/
+theorem announcements_do_not_depend_on_inbound_frames (ops : List Advert.Op) :
+    (Advert.run {} ops).wire = (Advert.run {} (ops.filter fun o => !Advert.isFrame o)).wire := by
+  have h := Advert.core_run_filter ops {} {} rfl
+  simp only [Advert.core, Prod.mk.injEq] at h
+  exact h.2.2.2.2
+
+/-- the seeded interleaving: the frame comes after the actor left the registry and before its event -/
+example :
+    let s := Advert.run {} [.spawn, .spawn, .stop 1, .frame 1, .evt 1]
+    s.wire = [.spawn 0, .spawn 1, .term 1] ∧ s.adv = [0] := by decide
+
 #print axioms C20.extracted_budget
 #print axioms C20.tags_never_reused
 #print axioms C20.call_gets_fresh_tag
@@ -748,6 +786,8 @@ theorem listener_oracle_model (evs : List Listener.Ev) :
 #print axioms C20.cleanup_only_closed
 #print axioms C20.order_preserved
 #print axioms C20.delivered_at_rest
+#print axioms C20.every_exit_is_announced_exactly_once
+#print axioms C20.announcements_do_not_depend_on_inbound_frames
 #print axioms C20.frames_in_flight_survive_loss_of_sender_side
 #print axioms C20.per_sender_order
 #print axioms C20.replies_not_cross_wired
